@@ -48,6 +48,10 @@ def h3_cl_ok(h, n):
     "extra rule of the implementation: every content-length is a non-negative integer in the spelling int() accepts"
     return forall(lambda k: implies(0 <= k < n and h3_key(h, k) == b"content-length", py_int_ok(h3_val(h, k)) and py_int_val(h3_val(h, k)) >= 0))
 
+def h3_cl_same(h, n):
+    "all content-length fields of the block declare the same number (RFC 9110 8.6: differing values make the message malformed)"
+    return forall(lambda j, k: implies(0 <= j and j < k and k < n and h3_key(h, j) == b"content-length" and h3_key(h, k) == b"content-length", py_int_val(h3_val(h, j)) == py_int_val(h3_val(h, k))))
+
 def h3_te_ok(h, n):
     "extra rule of the implementation: transfer-encoding may only be 'trailers'"
     return forall(lambda k: implies(0 <= k < n and h3_key(h, k) == b"transfer-encoding", h3_val(h, k) == b"trailers"))
@@ -61,7 +65,7 @@ def h3_ap_ok(h, n):
 
 def h3_items_ok(h, n, allowed):
     "the rules that are checked header by header (n = length of the prefix considered)"
-    return h3_fields_ok(h, n) and h3_order_ok(h, n) and h3_nodup_ok(h, n) and h3_known_ok(h, n, allowed) and h3_cl_ok(h, n) and h3_te_ok(h, n)
+    return h3_fields_ok(h, n) and h3_order_ok(h, n) and h3_nodup_ok(h, n) and h3_known_ok(h, n, allowed) and h3_cl_ok(h, n) and h3_cl_same(h, n) and h3_te_ok(h, n)
 
 def h3_block_ok(h, allowed, required):
     return h3_items_ok(h, len(h), allowed) and h3_required_ok(h, len(h), required) and h3_ap_ok(h, len(h))
@@ -147,7 +151,7 @@ R.contract(
         # nothing else of any stream's bookkeeping is written
         "forall(lambda s: s.content_length == old(s.content_length) and (s == stream or same(s.expected_content_length, old(s.expected_content_length))), types={'s': 'H3Stream'})",
     ]
-    + (C15_FINDING_CLAUSES["validate_headers"] if _STRICT else []),
+    + C15_FINDING_CLAUSES["validate_headers"],  # since /repo fix (content-length values differ -> MessageError) this clause holds
     loops={
         0: dict(
             invariant=[
@@ -159,6 +163,12 @@ R.contract(
                 "forall(lambda j, k: implies(0 <= j and j < k and k < _i0 and h3_pseudo(h3_key(headers, j)) and h3_pseudo(h3_key(headers, k)), bkey(h3_key(headers, j)) != bkey(h3_key(headers, k))))",
                 "h3_known_ok(headers, _i0, allowed_pseudo_headers)",
                 "h3_cl_ok(headers, _i0)",
+                "h3_cl_same(headers, _i0)",
+                # declared_content_length = the number every content-length field seen so far declares (None: none seen)
+                "implies(declared_content_length is None, h3_no_cl(headers, 0, _i0))",
+                "implies(declared_content_length is not None, forall(lambda k: implies(0 <= k < _i0 and h3_key(headers, k) == b'content-length', py_int_val(h3_val(headers, k)) == some(declared_content_length))))",
+                "implies(declared_content_length is not None, exists(lambda k: 0 <= k < _i0 and h3_key(headers, k) == b'content-length' and py_int_val(h3_val(headers, k)) == some(declared_content_length)))",
+                "implies(stream is not None and declared_content_length is not None, stream.expected_content_length is not None and some(stream.expected_content_length) == some(declared_content_length))",
                 "h3_te_ok(headers, _i0)",
                 # after_pseudo_headers <=> a regular header has been seen
                 "iff(after_pseudo_headers, exists(lambda k: 0 <= k < _i0 and not h3_pseudo(h3_key(headers, k))))",
